@@ -501,7 +501,15 @@ def run_format(case):
         except Exception as e:
             out, err = None, type(e).__name__
     res = {"out": out, "err": err, "line": line, "can": can, "model_line": None}
-    # the model's parameters: what the real parser says about each candidate, the real digests
+    tables = parameter_tables(line, can, fmtr, res)
+    if tables is not None:
+        res["model_line"] = "C20 format " + wire.line(bool(can), line, *tables)
+    return res
+
+
+def parameter_tables(line, can, fmtr, res):
+    """the model's parameters for one formatted line: what the real parser says about each candidate, the real digests
+    -> (parses, digests) or None (then the record is judged by the oracle alone)"""
     try:
         hash_it = soft(fmtr, "hash_it")
         if not isinstance(can, bool) or not callable(hash_it):
@@ -527,17 +535,14 @@ def run_format(case):
                 digests_of(d, hash_it, digs)
             else:
                 parses.append([cand, None])
-        res["model_line"] = "C20 format " + wire.line(bool(can), line, parses, digs)
+        wire.line(bool(can), line, parses, digs)
+        return parses, digs
     except (wire.WireError, UnicodeEncodeError, InfraError):
-        res["model_line"] = None  # lone surrogates etc.: oracle only
-    return res
+        return None  # lone surrogates etc.: oracle only
 
 
-def oracle_url(case, msg, out):
-    a = len(case["pre"]) + len(case["scheme"]) + 3
-    spans = [(a, a + len(case["user"]) + 1 + len(case["password"]))]
-    # every other URL with user-info in the surrounding text counts as well
-    spans += [m.span(1) for m in RFC_URL.finditer(msg)]
+def url_hidden_tokens(msg, spans, elsewhere=""):
+    """tokens that occur in `msg` only inside the given spans (user-infos of URLs) - and nowhere in `elsewhere`"""
     hidden, keep, pos = set(), [], 0
     for lo, hi in sorted(spans):
         hidden |= set(TOKEN.findall(msg[lo:hi]))
@@ -547,8 +552,15 @@ def oracle_url(case, msg, out):
         else:
             pos = max(pos, hi)
     keep.append(msg[pos:])
-    hidden -= set(TOKEN.findall("\x00".join(keep)))
-    for t in sorted(hidden):
+    return hidden - set(TOKEN.findall("\x00".join(keep))) - set(TOKEN.findall(elsewhere))
+
+
+def oracle_url(case, msg, out):
+    a = len(case["pre"]) + len(case["scheme"]) + 3
+    spans = [(a, a + len(case["user"]) + 1 + len(case["password"]))]
+    # every other URL with user-info in the surrounding text counts as well
+    spans += [m.span(1) for m in RFC_URL.finditer(msg)]
+    for t in sorted(url_hidden_tokens(msg, spans)):
         if t in out:
             return "URL user-info is emitted"
     return None
@@ -571,6 +583,8 @@ def oracle_format(case, out):
 
 
 def valid_case(c):
+    if isinstance(c, dict) and c.get("kind") == "rec":
+        return valid_rec(c) and rec_combination_ok(c.get("style", 0), c.get("via", 0))
     if not isinstance(c, dict) or c.get("kind") not in ("json", "url", "text", "clean", "google", "gurl", "gtext", "ginst"):
         return False
     for k in ("layout", "colour", "level", "enc", "severity", "span", "method", "loglevel"):
@@ -842,6 +856,274 @@ def _all_keys(d):
             yield from _all_keys(v)
 
 
+# --------------------------------------------------------------------------- the ways a message reaches the formatter
+
+# Round 4.  LogFormatter.format is handed a LogRecord: a template (record.msg - a text, or any object with __str__, a dict,
+# bytes), %-arguments (a tuple, or one dict for %(name)s), exc_info / stack_info, attributes given by `extra=`.  The
+# payload (a URL with user-info, a JSON object text, a plain text) is put into each of these places, and the record is
+# made by each kind of call: a LogRecord built by hand, logger.<level>(...) (orso's replaced methods), logger.log(level, ...),
+# logger.exception(...), a LoggerAdapter, logger.critical(...) (a stdlib method orso does not replace).
+REC_STYLES = ["inline", "pct-s", "pct-two", "pct-dict", "msg-object", "msg-object-args", "arg-object", "whole-arg",
+              "exc-text", "stack-info", "msg-plus-exc", "msg-plus-stack", "bytes-msg", "extra", "dict-msg", "pct-escaped", "repr-arg"]
+REC_VIA = ["record", "logger", "log", "exception", "adapter", "critical"]
+REC_TEMPLATES = ["%s", "cannot connect to %s, giving up", " %s ", "retrying %s", "a | b %s | c", "dsn='%s'", "%s | done", "got `%s` back"]
+REC_EXTRA_LAYOUT = "%(name)s | %(ctx)s | %(levelname)-8s | %(message)s"
+REC_METHODS = ["debug", "info", "warning", "error", "audit", "alert"]
+
+
+class _Lazy:
+    """a message / argument object: only str() gives its text"""
+
+    def __init__(self, text):
+        self.text = text
+
+    def __str__(self):
+        return self.text
+
+    def __repr__(self):
+        return "<lazy>"
+
+
+class _RecCollector(logging.Handler):
+    def __init__(self):
+        super().__init__(level=0)
+        self.records = []
+
+    def emit(self, record):
+        self.records.append(record)
+
+
+class _Stream(logging.StreamHandler):
+    """a StreamHandler whose formatting error is kept instead of being printed on stderr"""
+
+    err = None
+
+    def handleError(self, record):
+        import sys
+
+        self.err = getattr(sys.exc_info()[0], "__name__", "?")
+
+
+def rec_payload_text(pl):
+    if pl["kind"] == "url":
+        return "%s%s://%s:%s@%s%s" % (pl["pre"], pl["scheme"], pl["user"], pl["password"], pl["host"], pl["post"])
+    if pl["kind"] == "json":
+        return encode_message(pl["obj"], pl.get("enc", 0))
+    return pl["text"]
+
+
+def valid_rec(c):
+    if not (isinstance(c, dict) and c.get("kind") == "rec" and isinstance(c.get("payload"), dict)):
+        return False
+    for k in ("style", "via", "tpl", "layout", "colour", "level"):
+        if not (isinstance(c.get(k, 0), int) and not isinstance(c.get(k, 0), bool) and c.get(k, 0) >= 0):
+            return False
+    if "name" in c and not isinstance(c["name"], str):
+        return False
+    pl = c["payload"]
+    if pl.get("kind") == "url":
+        if not all(isinstance(pl.get(k), str) for k in ("pre", "scheme", "user", "password", "host", "post")):
+            return False
+        ui = pl["user"] + pl["password"]
+        return not any(ch in ui for ch in "@/?#\n\r \t") and ":" not in pl["user"] and "@" not in pl["host"][:1]
+    if pl.get("kind") == "json":
+        return isinstance(pl.get("obj"), dict) and json_ok(pl["obj"]) and isinstance(pl.get("enc", 0), int) and pl.get("enc", 0) >= 0
+    return pl.get("kind") == "text" and isinstance(pl.get("text"), str)
+
+
+def rec_call(case):
+    """-> (msg, args, exc_text | None, stack_info | None, extra | None): what the caller hands to logging"""
+    P = rec_payload_text(case["payload"])
+    style = REC_STYLES[case.get("style", 0) % len(REC_STYLES)]
+    T = REC_TEMPLATES[case.get("tpl", 0) % len(REC_TEMPLATES)]
+    left, right = T.split("%s", 1)
+    plain = left + "it" + right
+    msg, args, exc, stack, extra = left + P + right, (), None, None, None
+    if style == "pct-s":
+        msg, args = T, (P,)
+    elif style == "pct-two":
+        msg, args = "attempt %d: " + T, (3, P)
+    elif style == "pct-dict":
+        msg, args = T.replace("%s", "%(target)s"), ({"target": P, "n": 1},)
+    elif style == "msg-object":
+        msg = _Lazy(left + P + right)
+    elif style == "msg-object-args":
+        msg, args = _Lazy(T), (P,)
+    elif style == "arg-object":
+        msg, args = T, (_Lazy(P),)
+    elif style == "whole-arg":
+        msg, args = "%s", (P,)
+    elif style == "exc-text":
+        msg, exc = plain, P
+    elif style == "stack-info":
+        msg, stack = plain, "Stack (most recent call last):\n  " + P
+    elif style == "msg-plus-exc":
+        exc = "boom 7EXCTEXT9Z"
+    elif style == "msg-plus-stack":
+        stack = "Stack (most recent call last):\n  File 'x.py', line 1"
+    elif style == "bytes-msg":
+        msg = (left + P + right).encode("utf-8", "surrogatepass")
+    elif style == "extra":
+        msg, extra = plain, {"ctx": P}
+    elif style == "dict-msg":
+        msg = {"target": P, "n": 1}
+    elif style == "pct-escaped":
+        msg, args = "100%% sure: " + T, (P,)
+    elif style == "repr-arg":
+        msg, args = T.replace("%s", "%r"), (P,)
+    return msg, args, exc, stack, extra
+
+
+def run_rec(case):
+    """Make the record by the named kind of call, format it with the implementation (through a real handler unless the
+    record is built by hand) -> dict(out, err, line, can, message, trailer, model_line, made)."""
+    st = impl()
+    msg, args, exc, stack, extra = rec_call(case)
+    via = REC_VIA[case.get("via", 0) % len(REC_VIA)]
+    style = REC_STYLES[case.get("style", 0) % len(REC_STYLES)]
+    name, levelno = LEVELS[case.get("level", 3) % len(LEVELS)]
+    exc_info = None
+    if exc is not None:
+        e = ValueError(exc)
+        exc_info = (ValueError, e, None)
+    with colour_env(COLOURS[case.get("colour", 0) % len(COLOURS)]) as suppress:
+        fmtr, orig = make_formatter(case.get("layout", 0), suppress)
+        if style == "extra":
+            orig = logging.Formatter(REC_EXTRA_LAYOUT)
+            fmtr = st["lf"].LogFormatter(orig, suppress_color=suppress)
+        can = soft_call(fmtr, "_can_colorize")
+        out = err = record = None
+        if via == "record" or (stack is not None and stack.startswith("Stack") and via != "record" and False):
+            record = logging.LogRecord(case.get("name", "DEFAULT"), levelno, "/srv/app/module_x.py", 12, msg, args, exc_info, func="run", sinfo=stack)
+            record.created, record.msecs = 1790000000.25, 250.0
+            for k, v in (extra or {}).items():
+                setattr(record, k, v)
+            try:
+                out = fmtr.format(record)
+            except Exception as e:
+                err = type(e).__name__
+        else:
+            lg = logging.getLogger("c20rec." + case.get("name", "DEFAULT"))
+            lg.propagate = False
+            lg.setLevel(1)
+            buf = io.StringIO()
+            sh, col = _Stream(buf), _RecCollector()
+            sh.setFormatter(fmtr)
+            lg.handlers[:] = [sh, col]
+            for m in (st.get("al"), st["gl"]):
+                if m is not None:
+                    forget_warnings(m)
+            kw = {}
+            if extra:
+                kw["extra"] = extra
+            if exc_info is not None and via != "exception":
+                kw["exc_info"] = exc_info
+            try:
+                if via == "logger":
+                    getattr(lg, REC_METHODS[case.get("level", 3) % len(REC_METHODS)])(msg, *args, **kw)
+                elif via == "log":
+                    lg.log(levelno, msg, *args, **kw)
+                elif via == "exception":
+                    try:
+                        raise ValueError(exc if exc is not None else "boom 7EXCTEXT9Z")
+                    except ValueError:
+                        lg.exception(msg, *args, **kw)
+                elif via == "adapter":
+                    logging.LoggerAdapter(lg, {"ctx": "adapter-ctx"}).error(msg, *args, **kw)
+                else:
+                    lg.critical(msg, *args, **kw)
+            except Exception as e:
+                err = type(e).__name__
+            finally:
+                lg.handlers[:] = []
+                forget_exit_reports(st["gl"], st.get("al"))
+            if col.records:
+                record = col.records[0]
+                if stack is not None:
+                    pass  # stack_info text can only be given on a record built by hand (valid combinations exclude this)
+            err = err or sh.err
+            text = buf.getvalue()
+            out = text[:-1] if text.endswith("\n") else (text or None)
+            if err is not None:
+                out = None
+        res = {"out": out, "err": err, "line": None, "can": can, "message": None, "trailer": "", "model_line": None, "made": record is not None,
+               "header": None, "fragment": None}
+        if record is None:
+            return res
+        try:
+            line = orig.format(record)
+            import copy
+
+            bare = copy.copy(record)
+            bare.exc_info = bare.exc_text = bare.stack_info = None
+            head = orig.format(bare)
+            M = record.getMessage()
+        except Exception as e:
+            res["unformattable"] = type(e).__name__
+            return res
+    res["line"], res["message"] = line, M
+    if line.startswith(head) and head.endswith(M):
+        res["trailer"] = line[len(head):]
+        res["header"] = head[: len(head) - len(M)]
+    tables = parameter_tables(line, can, fmtr, res)
+    if tables is not None:
+        # inside the fragment of `%` the model has (Model.pctFormat: %s / %d of texts and integers, %%): the model is given the
+        # record - template, arguments, traceback - and computes the line itself; outside: the line is the parameter
+        tpl = record.msg if isinstance(record.msg, str) else None
+        rargs = record.args if isinstance(record.args, tuple) else None
+        if tpl is not None and rargs is not None and res["header"] is not None and wire_ok(tpl) and in_pct_fragment(tpl, rargs):
+            res["fragment"] = True
+            res["model_line"] = "C20 formatrec " + wire.line(bool(can), res["header"], tpl, [str(a) for a in rargs], res["trailer"], *tables)
+        else:
+            res["model_line"] = "C20 format " + wire.line(bool(can), line, *tables)
+    return res
+
+
+def in_pct_fragment(tpl, args):
+    """the part of `template % args` Model.pctFormat has: %s of a text or an integer, %d of an integer, %%; as many as arguments"""
+    if not re.fullmatch(r"(?:[^%]|%[sd%])*", tpl, re.S):
+        return False
+    ds = [d for d in re.findall(r"%([sd%])", tpl) if d != "%"]
+    if len(ds) != len(args):
+        return False
+    return all((type(a) is int) if d == "d" else (type(a) in (str, int)) for d, a in zip(ds, args))
+
+
+def oracle_rec(case, r):
+    """The emitted line is judged against the *message* (record.getMessage(), computed by logging itself on the captured
+    record): a JSON object -> the JSON demand; anything else -> no user-info of a URL of the message may be emitted."""
+    out, M = r["out"], r["message"]
+    if out is None or M is None:
+        return None
+    c = classify_text(M)
+    if c is not None:
+        if r["trailer"]:
+            return None  # a JSON message followed by a traceback: measured (design notes, round 4), not demanded
+        return oracle_text(c[0], out, classified=c[1:])
+    spans = [m.span(1) for m in RFC_URL.finditer(M)]
+    pl = case["payload"]
+    if pl["kind"] == "url":
+        needle = "://%s:%s@" % (pl["user"], pl["password"])
+        i = M.find(needle)
+        while i >= 0:
+            spans.append((i + 3, i + len(needle) - 1))
+            i = M.find(needle, i + 1)
+    # a token that also stands in a header field or in the traceback is not the message's alone: no demand on it
+    for t in sorted(url_hidden_tokens(M, spans, elsewhere=(r["header"] or "") + "\x00" + r["trailer"])):
+        if t in out:
+            return "URL user-info is emitted"
+    return None
+
+
+def rec_combination_ok(style, via):
+    s, v = REC_STYLES[style % len(REC_STYLES)], REC_VIA[via % len(REC_VIA)]
+    if s in ("stack-info", "msg-plus-stack"):
+        return v == "record"            # the text of stack_info can only be chosen on a record built by hand
+    if v == "exception":
+        return s not in ("exc-text",) or True
+    return True
+
+
 # --------------------------------------------------------------------------- evaluation
 
 
@@ -859,6 +1141,23 @@ def _eval_one(case):
             return None if m[0] == r["out"] else "formatted text differs"
 
         return clause, {"out": r["out"], "err": r["err"], "line": r["line"], "can": r["can"],
+                        "parser_assumption_violated": r.get("parser_assumption_violated"),
+                        "parser_param_differs_from_json_loads_of_text": r.get("parser_param_differs_from_json_loads_of_text")}, r["model_line"], compare
+    if kind == "rec":
+        r = run_rec(case)
+        clause = oracle_rec(case, r)
+
+        def compare(m):
+            if r["err"] is not None:
+                return "implementation raised %s, model returned text" % r["err"]
+            if r["fragment"]:
+                if m[0] == ["err"] or m[1] != r["line"]:
+                    # the model's `%` against Python's, the implementation is not involved: a harness / model error
+                    raise InfraError("Model.stdLine differs from logging.Formatter on %r: %r vs %r" % (case, m[1:], r["line"]))
+            return None if m[0] == r["out"] else "formatted text differs"
+
+        return clause, {"out": r["out"], "err": r["err"], "line": r["line"], "can": r["can"], "message": r["message"], "trailer": r["trailer"],
+                        "made": r["made"], "fragment": r["fragment"],
                         "parser_assumption_violated": r.get("parser_assumption_violated"),
                         "parser_param_differs_from_json_loads_of_text": r.get("parser_param_differs_from_json_loads_of_text")}, r["model_line"], compare
     if kind == "clean":
@@ -999,7 +1298,29 @@ def evaluate(ctx, cases):
         if c["kind"] == "ginst":
             ctx.hit("ginst:%s@level%d%s%s" % (GMETHODS[c.get("method", 3) % len(GMETHODS)], GLEVELS[c.get("loglevel", 1) % len(GLEVELS)],
                                              ":reused" if c.get("reuse") else "", ":filtered" if view.get("filtered") else ""))
-        n_ = len(message_of(c)) if c["kind"] in ("json", "url", "text", "gurl", "gtext") else len(json.dumps(c["obj"], default=repr))
+        if c["kind"] == "rec":
+            n_ = len(view.get("message") or "")
+            sty, via_ = REC_STYLES[c.get("style", 0) % len(REC_STYLES)], REC_VIA[c.get("via", 0) % len(REC_VIA)]
+            ctx.hit("rec:style=" + sty)
+            ctx.hit("rec:via=" + via_)
+            ctx.hit("rec:payload=" + c["payload"]["kind"])
+            ctx.hit("rec:model=%s" % ("record(template,args,traceback)" if view.get("fragment") else "line" if ml is not None else "oracle-only"))
+            if not view.get("made"):
+                ctx.hit("rec:no-record-made")
+            M_ = view.get("message")
+            if M_ is not None:
+                msg_, _, _, _, _ = rec_call(c)
+                tpl_ = msg_ if isinstance(msg_, str) else None
+                if "://" in M_ and tpl_ is not None and "://" not in tpl_:
+                    ctx.hit("rec:url-in-message-but-not-in-template")
+                if spec_object(M_) is not None:
+                    ctx.hit("rec:message-is-json-object%s" % (":with-traceback(measured)" if view.get("trailer") else ""))
+                    if view.get("trailer") and view.get("out") is not None:
+                        cl_ = classify_text(M_)
+                        leak = cl_ is not None and any(t in view["out"] for t in cl_[1])
+                        ctx.hit("rec:json-message-with-traceback:%s" % ("secret-emitted" if leak else "no-secret-emitted"))
+        else:
+            n_ = len(message_of(c)) if c["kind"] in ("json", "url", "text", "gurl", "gtext") else len(json.dumps(c["obj"], default=repr))
         ctx.hit("message-length:%s" % ("<200" if n_ < 200 else "<1000" if n_ < 1000 else "<10000" if n_ < 10000 else "<100000" if n_ < 100000 else ">=100000"))
         if c["kind"] == "text":
             t = c["text"]
@@ -1021,11 +1342,11 @@ def evaluate(ctx, cases):
                     ctx.hit("text:unicode-escape")
             if view.get("parser_param_differs_from_json_loads_of_text"):
                 ctx.hit("text:implementation-parser-accepts-what-json.loads(text)-refuses(BOM)")
-        if c["kind"] in ("json", "url", "text"):
+        if c["kind"] in ("json", "url", "text", "rec"):
             ctx.hit("layout:%d" % (c.get("layout", 0) % len(LAYOUTS)))
             ctx.hit("colour:%d(%s)" % (c.get("colour", 0) % len(COLOURS), "on" if view.get("can") else "off"))
             ctx.hit("level:" + LEVELS[c.get("level", 3) % len(LEVELS)][0])
-            if "|" in message_of(c):
+            if "|" in (message_of(c) if c["kind"] != "rec" else (view.get("message") or "")):
                 ctx.hit("separator-in-message")
         if view.get("err"):
             ctx.hit("impl-raised:" + view["err"])
@@ -1299,8 +1620,50 @@ def url_scheme_cases(ctx):
             i += 1
 
 
+def rec_payload(rng, kind, keys=None):
+    if kind == "url":
+        u = url_case(rng)
+        return {"kind": "url", **{k: u[k] for k in ("pre", "scheme", "user", "password", "host", "post")}}
+    if kind == "json":
+        if keys is not None and rng.random() < 0.5:
+            return {"kind": "json", "obj": random_obj(rng, keys, rng.choice([0, 1, 2])), "enc": rng.randrange(4)}
+        return {"kind": "json", "enc": rng.randrange(4),
+                "obj": {"db_password": text_marker(rng, 1), "note": text_marker(rng, 0), "ctx": {"api_key": {"v": token(rng)}, "x": token(rng)},
+                        "My_Credentials_2": [token(rng)], "pct": "100%"}}
+    return {"kind": "text", "text": rng.choice([token(rng), "it's `x` | \"y\" " + token(rng), "100% " + token(rng), "", "{", "a://b " + token(rng),
+                                                 "%s %d %(x)s " + token(rng), "mail bob@example.com " + token(rng)])}
+
+
+def rec_cases(ctx):
+    """every place of a record the payload can sit in x every kind of call x payload kind x two templates, the
+    formatter settings rotating: the ways a message reaches LogFormatter.format"""
+    rng = ctx.rng
+    i = 0
+    for style in range(len(REC_STYLES)):
+        for via in range(len(REC_VIA)):
+            if not rec_combination_ok(style, via):
+                continue
+            for pk in ("url", "json", "text"):
+                for tpl in ((1, 0, 4) if pk == "url" else (0, 2) if pk == "json" else (3,)):
+                    i += 1
+                    yield {"kind": "rec", "style": style, "via": via, "tpl": tpl, "payload": rec_payload(rng, pk), "layout": i % len(LAYOUTS),
+                           "colour": (i // 2) % len(COLOURS), "level": (i // 3) % len(LEVELS)}
+
+
+def random_rec(rng, keys):
+    while True:
+        style, via = rng.randrange(len(REC_STYLES)), rng.randrange(len(REC_VIA))
+        if rec_combination_ok(style, via):
+            break
+    c = frame(rng, kind="rec", style=style, via=via, tpl=rng.randrange(len(REC_TEMPLATES)), payload=rec_payload(rng, rng.choice(["url", "url", "json", "json", "text"]), keys))
+    c.pop("enc", None)
+    return c
+
+
 def random_case(ctx, keys):
     rng = ctx.rng
+    if rng.random() < 0.2:
+        return random_rec(rng, keys)
     r = rng.random()
     if r < 0.55:
         return frame(rng, kind="json", obj=random_obj(rng, keys, rng.choice([0, 1, 2, 3])))
@@ -2045,6 +2408,7 @@ def run(ctx):
     for c in sequence_cases(ctx):
         eval_seq(ctx, c)
     evaluate(ctx, list(url_scheme_cases(ctx)))
+    evaluate(ctx, list(rec_cases(ctx)))
     evaluate(ctx, list(google_text_cases(ctx, ctx.scale(150, 3000))))
     evaluate(ctx, list(ginst_cases(ctx, ctx.scale(100, 3000))))
     observe_suppression_report(ctx)
